@@ -103,8 +103,6 @@ impl Tracker {
 
     fn at(&self, key: &str, loc: Loc) {
         self.loc.borrow_mut().insert(key.to_string(), loc);
-        let now = tokio::time::Instant::now();
-        let _ = now;
         self.ev(format!("{key}@{}", loc_str(loc)));
     }
 
@@ -386,7 +384,7 @@ struct Case {
     consumer_cancels: bool,
 }
 
-fn gen_case(rng: &mut Rng, case_no: u64) -> Case {
+fn gen_case(rng: &mut Rng) -> Case {
     let shapes: &[&[usize]] = &[
         &[1],
         &[1, 1],
@@ -419,10 +417,11 @@ fn gen_case(rng: &mut Rng, case_no: u64) -> Case {
             delay_seed: rng.next_u64(),
         });
     }
-    let n_items = 3 + rng.usize_below(if rng.chance(0.2) { 38 } else { 10 });
+    let many = rng.chance(0.2);
+    let n_items = 3 + rng.usize_below(if many { 38 } else { 10 });
     let gap_set: &[u64] = *rng.pick(&[&[0u64, 1, 2, 5][..], &[0][..], &[1, 2][..], &[0, 0, 3][..], &[7][..]]);
     let inputs = (0..n_items)
-        .map(|i| (*rng.pick(gap_set), format!("{case_no}:{i}")))
+        .map(|i| (*rng.pick(gap_set), format!("i{i}")))
         .collect();
     Case {
         stages,
@@ -493,7 +492,7 @@ fn attach_stage<'a>(
         1 => {
             let a = procs.pop().unwrap();
             if wrap_single {
-                input.layer(PipelineBuilder::new().layer(a).build()).map(unwrap_item).boxed_local()
+                input.layer(PipelineBuilder::<Item>::new().layer(a).build()).map(unwrap_item).boxed_local()
             } else {
                 input.layer(a).map(unwrap_item).boxed_local()
             }
@@ -502,7 +501,7 @@ fn attach_stage<'a>(
             let b = procs.pop().unwrap();
             let a = procs.pop().unwrap();
             input
-                .layer(PipelineBuilder::new().layer(a).layer(b).build())
+                .layer(PipelineBuilder::<Item>::new().layer(a).layer(b).build())
                 .map(unwrap_item)
                 .boxed_local()
         }
@@ -511,7 +510,7 @@ fn attach_stage<'a>(
             let b = procs.pop().unwrap();
             let a = procs.pop().unwrap();
             input
-                .layer(PipelineBuilder::new().layer(a).layer(b).layer(c).build())
+                .layer(PipelineBuilder::<Item>::new().layer(a).layer(b).layer(c).build())
                 .map(unwrap_item)
                 .boxed_local()
         }
@@ -521,7 +520,7 @@ fn attach_stage<'a>(
             let b = procs.pop().unwrap();
             let a = procs.pop().unwrap();
             input
-                .layer(PipelineBuilder::new().layer(a).layer(b).layer(c).layer(d).build())
+                .layer(PipelineBuilder::<Item>::new().layer(a).layer(b).layer(c).layer(d).build())
                 .map(unwrap_item)
                 .boxed_local()
         }
@@ -645,25 +644,25 @@ async fn run_direct_case(case: &Case, t: &Rc<Tracker>, expected_len: usize) -> O
     let quiescent = match sz {
         1 => {
             let a = procs.pop().unwrap();
-            drive!(PipelineBuilder::new().layer(a).build())
+            drive!(PipelineBuilder::<Item>::new().layer(a).build())
         }
         2 => {
             let b = procs.pop().unwrap();
             let a = procs.pop().unwrap();
-            drive!(PipelineBuilder::new().layer(a).layer(b).build())
+            drive!(PipelineBuilder::<Item>::new().layer(a).layer(b).build())
         }
         3 => {
             let c = procs.pop().unwrap();
             let b = procs.pop().unwrap();
             let a = procs.pop().unwrap();
-            drive!(PipelineBuilder::new().layer(a).layer(b).layer(c).build())
+            drive!(PipelineBuilder::<Item>::new().layer(a).layer(b).layer(c).build())
         }
         _ => {
             let d = procs.pop().unwrap();
             let c = procs.pop().unwrap();
             let b = procs.pop().unwrap();
             let a = procs.pop().unwrap();
-            drive!(PipelineBuilder::new().layer(a).layer(b).layer(c).layer(d).build())
+            drive!(PipelineBuilder::<Item>::new().layer(a).layer(b).layer(c).layer(d).build())
         }
     };
     Outcome { yielded, quiescent }
@@ -691,7 +690,7 @@ pub fn run(args: &Args) {
          in the chain; distinct by the hash of the global enter/leave event order.",
         100,
     );
-    let n = args.n(2_000, 150_000);
+    let n = args.n(20_000, 1_500_000);
     let only_case = args.params.get("case").and_then(|c| c.parse::<u64>().ok());
     let mut shapes_seen: BTreeMap<String, u64> = BTreeMap::new();
     let mut cancel_in_second_process = 0u64;
@@ -707,7 +706,7 @@ pub fn run(args: &Args) {
             }
         }
         let mut rng = Rng::fork(args.seed, i);
-        let case = gen_case(&mut rng, i);
+        let case = gen_case(&mut rng);
         let expected = expected_outputs(&case);
         let t = Rc::new(Tracker::default());
         *t.roles.borrow_mut() = roles_of(&case);
